@@ -10,7 +10,7 @@ META = {
         "(2) the DAP byte writer is a read-modify-write of the same aligned word: in each loop iteration write_memory(a, v) is preceded by read_memory(a', word) with a and a' the same expression, and v is data-dependent on the bytes just read; "
         "(3) the buffer handed to the disassembler is the one fetched from the debuggee after breakpoint bytes were replaced by their saved originals, and the masking index is strictly inside the buffer; "
         "(4) set_register_value is read-modify-write of the focused thread's register file (current -> update -> persist on the same pid)."
-        " Also: memory reads fetch word-aligned words only (never cross into the next page)."
+        " Also: memory reads fetch word-aligned words only (never cross into the next page); the debuggee address recorded for every element / member value is the address of the bytes shown for it (what setVariable writes to)."
     ),
     "not_decided": "byte-exactness of reads/writes at runtime, tail handling arithmetic of read_memory_by_pid on runtime lengths, setVariable serialisation of values (value-level)",
     "assumptions": ["x86-64 word size 8; ptrace PEEK/POKE word granularity"],
@@ -198,6 +198,10 @@ def rule_aligned_read(ck):
 
 
 def run(ck):
+    # setVariable / setExpression / `memory write` on an element or member write at the address recorded for it
+    # (shared with C07): that address must be the address of the bytes shown
+    from rules import C07
+    C07.rule_element_address(ck)
     rule_aligned_read(ck)
     regs.rule_siblings(ck)
     rule_write_bytes(ck)
